@@ -241,8 +241,9 @@ fn item<C: Suite>(ctx: &mut Ctx, entry: &str, n: u16, t: u16) {
         prev_vals = Some(o1.vals.clone());
         // (f) batch verification: at least one draw per item
         if entry == "batch_verify" {
-            if r1.n_calls() < fix.items.len() {
-                ctx.viol("batch-blinders", "too-few-draws", d("fewer draws than batch items", json!({"draws": r1.n_calls(), "items": fix.items.len()})));
+            // one blinder of at least 128 bits per item (counted in bytes, not in requests)
+            if r1.total() < 16 * fix.items.len() {
+                ctx.viol("batch-blinders", "too-few-draws", d("fewer than 16 random bytes per batch item were drawn", json!({"requests": r1.n_calls(), "bytes": r1.total(), "items": fix.items.len()})));
             }
             if o1.all != vec![1u8] {
                 ctx.viol("honest-call-failed", entry, d("valid batch rejected", json!({})));
@@ -251,11 +252,14 @@ fn item<C: Suite>(ctx: &mut Ctx, entry: &str, n: u16, t: u16) {
             ctx.count("batch_draw_checks");
             continue;
         }
-        // (d) taint map
-        let nd = r1.n_calls();
+        // (d) taint map over 16-byte blocks of the consumed byte stream (not over calls: the verdict must not depend
+        //     on how the library chunks its requests to the source)
+        const BLOCK: usize = 16;
+        let nd = r1.total().div_ceil(BLOCK);
         let mut affects: Vec<Vec<bool>> = vec![];
         for k in 0..nd {
-            let mut rp = base_rng.clone().with_perturb(k);
+            let mut rp = base_rng.clone();
+            rp.perturb_range = Some((k * BLOCK, (k + 1) * BLOCK));
             match call::<C>(entry, n, t, &fix, &mut rp) {
                 Ok(op) => {
                     let row: Vec<bool> = if op.vals.len() == o1.vals.len() { o1.vals.iter().zip(op.vals.iter()).map(|(a, b)| a.1 != b.1).collect() } else { vec![true; o1.vals.len()] };
@@ -284,9 +288,9 @@ fn item<C: Suite>(ctx: &mut Ctx, entry: &str, n: u16, t: u16) {
         dead_by_seed.push(dead);
         unmatched_by_seed.push(best_unmatched.unwrap_or_default());
         if s == 0 {
-            let map: BTreeMap<String, Vec<String>> = (0..nd).map(|k| (format!("draw{k}({}B)", r1.calls[k]), o1.vals.iter().enumerate().filter(|(o, _)| affects[k][*o]).map(|(_, v)| v.0.clone()).collect())).collect();
+            let map: BTreeMap<String, Vec<String>> = (0..nd).map(|k| (format!("bytes[{:04}..{:04}]", k * BLOCK, ((k + 1) * BLOCK).min(r1.total())), o1.vals.iter().enumerate().filter(|(o, _)| affects[k][*o]).map(|(_, v)| v.0.clone()).collect())).collect();
             if ctx.samples.len() < 3 {
-                ctx.sample(json!({"entry": entry, "n": n, "t": t, "draws": nd, "bytes": r1.total(), "taint_map": map}));
+                ctx.sample(json!({"entry": entry, "n": n, "t": t, "requests_to_source": r1.n_calls(), "bytes": r1.total(), "taint_map_16_byte_blocks": map}));
             }
         }
     }
@@ -333,7 +337,7 @@ fn item<C: Suite>(ctx: &mut Ctx, entry: &str, n: u16, t: u16) {
         // a rejection-sampling retry is a property of particular bytes; a defect is seed-independent
         let dead_all: Vec<usize> = dead_by_seed[0].iter().filter(|k| dead_by_seed.iter().all(|d| d.contains(k))).copied().collect();
         if !dead_all.is_empty() {
-            ctx.viol("dead-draw", entry, d("a draw from the source influences no output, under three different streams", json!({"draws": dead_all})));
+            ctx.viol("dead-draw", entry, d("a 16-byte block drawn from the source influences no output, under three different streams", json!({"blocks": dead_all})));
         }
         if unmatched_by_seed.iter().all(|u| !u.is_empty()) {
             ctx.viol("shared-randomness", entry, d("independent secret values cannot each be traced to a draw of their own", json!({"without_private_draw": unmatched_by_seed[0]})));
